@@ -56,7 +56,7 @@ def cmd_exec_plan(prop, path):
     with open(path) as f:
         rec = json.load(f)
     plan = rec["plan"] if "plan" in rec else rec
-    eng.worker_setup(rec.get("opts", {}) if isinstance(rec, dict) else {})
+    eng.worker_setup(eng.prepare_opts(rec.get("opts", {}) if isinstance(rec, dict) else {}))
     try:
         res = eng.run_plan(plan, deep=True)
     finally:
@@ -69,7 +69,7 @@ def cmd_exec_plan(prop, path):
 
 def cmd_digests(prop, seed, n, opts):
     eng = importlib.import_module(ENGINES[prop])
-    eng.worker_setup(opts)
+    eng.worker_setup(eng.prepare_opts(opts))
     try:
         out = {}
         for run in range(n):
@@ -94,7 +94,7 @@ def cmd_replay(prop, path):
             return 1
         print("not reproduced on this tree")
         return 0
-    eng.worker_setup(rec.get("opts", {}))
+    eng.worker_setup(eng.prepare_opts(rec.get("opts", {})))
     try:
         res = eng.run_plan(rec["plan"], deep=True)
     finally:
@@ -106,6 +106,10 @@ def cmd_replay(prop, path):
         "IDENTICAL" if res["digest"] == rec.get("digest") else "DIFFERENT"))
     if hits:
         print("reproduced: " + eng.describe_violation(hits[0]))
+        kf = eng.is_known(hits[0], rec["plan"])
+        if kf is not None:
+            print("KNOWN-FINDING: property=%s %s" % (prop, kf["what"]))
+            return 0
         print("VIOLATION property=%s replay=%s" % (prop, os.path.abspath(path)))
         return 1
     print("not reproduced on this tree (0 violations of class %s)" % (list(want),))
@@ -123,7 +127,7 @@ def run_tier(prop, tier):
     if os.environ.get("VERIF_RUNS"):
         cfg["runs"] = int(os.environ["VERIF_RUNS"])
     workers = int(os.environ.get("VERIF_WORKERS", min(16, os.cpu_count() or 1)))
-    opts = cfg.get("opts", {})
+    opts = eng.prepare_opts(cfg.get("opts", {}))
     print("VERIF_SEED=%d property=%s tier=%s runs=%d workers=%d repo=%s" % (
         seed, prop, tier, cfg["runs"], workers, env.REPO))
     sys.stdout.flush()
@@ -182,12 +186,15 @@ def run_tier(prop, tier):
     violations_out = []
     known_out = []
     seen_known = set()
-    for v in (res["violations"] if res else []):
+    def confirm(v):
+        """Write the replay file and re-execute it in a fresh interpreter under another
+        hash seed: class and event-log digest must reproduce exactly."""
         rec = {"property": prop, "seed": v["seed"], "run": v["run"], "class": v["class"],
                "violation": v["violation"], "plan": v["plan"], "digest": v["digest"],
                "original_plan": v["original_plan"], "opts": opts,
-               "minimise_tries": v["minimise_tries"]}
-        path = os.path.join(REPLAY_DIR, "%s-seed%d-run%d.json" % (prop, v["seed"], v["run"]))
+               "minimise_tries": v["minimise_tries"], "known_finding": v.get("known")}
+        path = os.path.join(REPLAY_DIR, "%s-seed%d-run%d%s.json" % (
+            prop, v["seed"], v["run"], "-known" if v.get("known") else ""))
         with open(path, "w") as f:
             json.dump(rec, f, indent=1, default=repr)
         try:
@@ -200,16 +207,22 @@ def run_tier(prop, tier):
             harness_errors.append("replay of %s crashed: %r" % (path, e))
         if not (same_class and same_digest):
             harness_errors.append(
-                "violation of run %d did not replay exactly in a fresh interpreter "
+                "violation of run %s did not replay exactly in a fresh interpreter "
                 "(class %s, digest %s): %s" % (v["run"], same_class, same_digest, path))
-            continue
-        kf = known.match(prop, v["violation"], v["plan"], eng.KNOWN_MATCHERS)
-        if kf is not None:
-            if kf["id"] not in seen_known:
-                seen_known.add(kf["id"])
-                known_out.append((kf, path))
-            continue
-        violations_out.append((v, path))
+            return None
+        return path
+
+    for v in (res["violations"] if res else []):
+        path = confirm(v)
+        if path is not None:
+            violations_out.append((v, path))
+    kf_entries = {e["id"]: e for e in known.load().get("findings", [])}
+    for kid in sorted(res["known"] if res else {}):
+        v = res["known"][kid]
+        path = confirm(v)
+        if path is not None and kid not in seen_known:
+            seen_known.add(kid)
+            known_out.append((kf_entries[kid], path))
     for v in sweep_viol:
         path = os.path.join(REPLAY_DIR, "%s-sweep-seed%d-%s.json" % (prop, seed, v["name"]))
         with open(path, "w") as f:
@@ -253,7 +266,7 @@ def run_tier(prop, tier):
         for h in harness_errors:
             print("HARNESS-ERROR " + h.replace("\n", " | ")[:3000])
         return 2
-    if res is not None and res["violating_runs"] and not known_out:
+    if res is not None and res["unknown_violating_runs"]:
         print("HARNESS-ERROR violating runs reported but none confirmed")
         return 2
     print("OK property=%s held on everything explored" % prop)
